@@ -124,8 +124,14 @@ fn tree_case<W: Write>(out: &mut W, bytes: &[u8], ops: &str) {
                         }
                     }
                     'L' => {
-                        if let Some(t) = bx.data.parse()?.traks().last() {
-                            t?.co_mut()?;
+                        // not `.last()`: that would swallow the parse error of an earlier trak, which leaves that trak's
+                        // buffer partly consumed (failed accessors are outside the round-trip claim)
+                        let mut last = None;
+                        for t in bx.data.parse()?.traks() {
+                            last = Some(t?);
+                        }
+                        if let Some(t) = last {
+                            t.co_mut()?;
                         }
                     }
                     _ => {}
